@@ -1,15 +1,9 @@
 #![allow(dead_code, unused_imports)]
 use super::*;
-/// discriminants by *name*: contexts are indexed by `as usize`, so their numbering is part of the format
-pub fn discriminants() -> [u32; 19] {
-    [
-        CodecMisprediction::EOFMisprediction as u32, CodecMisprediction::LiteralPredictionWrong as u32,
-        CodecMisprediction::ReferencePredictionWrong as u32, CodecMisprediction::IrregularLen258 as u32,
-        CodecMisprediction::TreeCodeCountMisprediction as u32, CodecMisprediction::LiteralCountMisprediction as u32,
-        CodecMisprediction::DistanceCountMisprediction as u32, CodecMisprediction::MAX as u32,
-        CodecCorrection::TokenCount as u32, CodecCorrection::NonZeroPadding as u32, CodecCorrection::BlockTypeCorrection as u32,
-        CodecCorrection::LenCorrection as u32, CodecCorrection::DistOnlyCorrection as u32, CodecCorrection::DistAfterLenCorrection as u32,
-        CodecCorrection::TreeCodeBitLengthCorrection as u32, CodecCorrection::LDTypeCorrection as u32,
-        CodecCorrection::RepeatCountCorrection as u32, CodecCorrection::LDBitLengthCorrection as u32, CodecCorrection::MAX as u32,
-    ]
+/// Sizes of the two context enums.  NOTE: the *numbering* of CodecCorrection / CodecMisprediction is not
+/// part of the format: all adaptive slots start in the same state and each context always uses its own
+/// slot, so a permutation is invisible in the coded bytes (confirmed by a seeded change).  Only the
+/// partition of operations into slots matters; k04h compares that up to renaming.
+pub fn context_counts() -> [u32; 2] {
+    [CodecMisprediction::MAX as u32, CodecCorrection::MAX as u32]
 }
